@@ -55,6 +55,10 @@ def formats(tier):
         for signed in (True, False):
             for f in fr:
                 out.append((signed, bits, f))
+            # negative n_frac: a least significant bit worth 2^-n_frac > 1
+            if bits in (8, 16, 32):
+                for f in (-1, -3):
+                    out.append((signed, bits, f))
     return out
 
 
@@ -111,7 +115,7 @@ def limits(signed, bits):
 def reference(f, signed, bits, frac):
     """clamp(trunc(f * 2^frac)) in exact integer arithmetic."""
     n, d = f.as_integer_ratio()
-    q = (abs(n) << frac) // d
+    q = (abs(n) << frac) // d if frac >= 0 else abs(n) // (d << -frac)
     if n < 0:
         q = -q
     lo, hi = limits(signed, bits)
@@ -134,7 +138,14 @@ def alphabet(signed, bits, frac):
     inf = float("inf")
     for k in levels:
         try:
-            x = k / float(1 << frac) if abs(k) < (1 << 1000) else None
+            if frac >= 0:
+                x = k / float(1 << frac) if abs(k) < (1 << 1000) else None
+            else:
+                x = float(k) * 2.0 ** -frac
+                # the values between two levels
+                for dlt in (1.0, 2.0 ** -frac - 1.0, 2.0 ** -frac / 2):
+                    fl.add(x + dlt)
+                    fl.add(x - dlt)
         except OverflowError:
             x = None
         if x is None:
@@ -142,7 +153,7 @@ def alphabet(signed, bits, frac):
         fl.add(x)
         fl.add(math.nextafter(x, inf))
         fl.add(math.nextafter(x, -inf))
-    big = 1.7e308 / float(1 << frac)
+    big = 1.7e308 / 2.0 ** frac
     for x in (0.0, -0.0, 5e-324, -5e-324, 1e30, -1e30, big, -big, 0.5, -0.5,
               1.0 - 2 ** -53, 2.0 ** -frac, -(2.0 ** -frac), 1e-310):
         fl.add(x)
@@ -215,7 +226,7 @@ def run_format(signed, bits, frac, acc, floats=None):
                           "fp_to_float(%d)(%d) = %r converts back to %r"
                           % (frac, k, f, k2))
     # deprecated variants agree modulo 2^bits
-    if frac + (1 if signed else 0) <= bits:
+    if frac >= 0 and frac + (1 if signed else 0) <= bits:
         with warnings.catch_warnings():
             warnings.simplefilter("ignore")
             try:
@@ -383,7 +394,7 @@ def run_format(signed, bits, frac, acc, floats=None):
                 fa = aback(ia)
                 ra = aconv(fa)
             bad = [(k, float(f), int(r)) for k, f, r in zip(lv, fa, ra)
-                   if int(r) != k or float(f) != k / float(1 << frac)]
+                   if int(r) != k or float(f) != (k / float(1 << frac) if frac >= 0 else k * 2.0 ** -frac)]
         except Exception as e:
             bad = [repr(e)]
         if bad:
